@@ -221,8 +221,9 @@ CLAIMED["C19"] = {
              "CountDirections equals the number of fixed directions with a valid receiver on all 24 attainable combinations of first/last column, "
              "first/last row and row parity (1xN, Nx1 and 1x1 maps are the combinations where first = last), every move is by one cell and "
              "validated against the map size; ring counts equal the directions their helper answers; star / mesh / graph counts are regions-1 | 1, "
-             "regions-1 and the adjacency list's length; the star and mesh random draws are reached only when another region exists. NOT decided: "
-             "that the id returned for a valid move is that of the moved-to cell, and the probabilities of the random choices."),
+             "regions-1 and the adjacency list's length; the star and mesh random draws are reached only when another region exists; a valid grid "
+             "move returns y * width + x, torus coordinates are reduced modulo their own extent, ring answers modulo the number of regions, a star "
+             "leaf gets the centre and the mesh draw excludes the asking region. NOT decided: the probabilities of the random choices."),
     "note": TRUST + " The abstraction assumes from < width*height and width, height >= 1 and < 2^32-1.",
 }
 
@@ -235,8 +236,9 @@ CLAIMED["C20"] = {
              "the same loop) with its event; counters are thread-local, written to the thread's file before being zeroed, after the "
              "auto-checkpoint reader; thread 0 alone writes the node record; the per-thread record is written whenever a statistics file was "
              "requested and the node record under the same condition by the thread elected with rid - nothing else (rank, GVT value, log level) "
-             "decides either, by classical control dependence; every loop over the per-thread temporary files visits every thread (headers evaluated "
-             "for 1..8 threads); every call site of gvt_phase_run forwards completed rounds to "
+             "decides either, by classical control dependence, and the node record carries the round's GVT; every loop over the per-thread temporary "
+             "files visits every thread, the names loop writes as many names as announced, rank 0 collects from every other rank (headers evaluated "
+             "for 1..8 threads / ranks) and each thread opens its own slot of the file table; every call site of gvt_phase_run forwards completed rounds to "
              "stats_on_gvt or lies after the shutdown barrier. NOT decided: truth of timing and memory figures."),
     "note": TRUST + " The Python parser is read with the standard ast module.",
 }
